@@ -119,6 +119,14 @@ ScopeCfg(S, refs, sc) ==
 ScopeCfgs(S) == {c \in {ScopeCfg(S, refs, sc) : refs \in [S -> SUBSET S], sc \in [S -> {Unset, "shared", "contextual", "non_shared"}]} :
                    OutputAccepted(c, [ignoreP |-> FALSE, ignoreS |-> FALSE])}
 ScopeOps(S) == {OpGet(s) : s \in S} \cup {OpGetInContext(c, s) : c \in {1, 2}, s \in S} \cup {OpGetTaggedBy("t1")}
+(* "scopeg": the same graphs, s1 reached through its generated getters (the typed getter of a service resolves its     *)
+(* contextual dependencies in the context it was given, like GetInContext)                                           *)
+ScopeCfgsG(S) == {[c EXCEPT !.services["s1"].getter = "GetS1", !.services["s1"].type = "*fx.T"] : c \in ScopeCfgs(S)}
+ScopeOpsG == {OpGetter("GetS1"), OpGetterIn(1, "GetS1"), OpGetterIn(2, "GetS1"), OpGetInContext(1, "s2"), OpGetInContext(2, "s2"),
+              OpGetInContext(1, "s1"), OpGet("s1")}
+(* "scope2m": every service re-opened by a later file that adds a tag and says nothing about the scope (Merge.tla:  *)
+(* an attribute the later file does not mention is kept)                                                             *)
+ReopenAll(c) == [EmptyCfg EXCEPT !.services = [s \in DOMAIN c.services |-> [EmptySvc EXCEPT !.tags = <<Tag("t9", 0)>>]]]
 
 -----------------------------------------------------------------------------
 (* Family "tags" (C04): three tagged services with every assignment of priorities (ties,  *)
@@ -367,6 +375,7 @@ Configs ==
   CASE Family = "build"  -> {BuildCfg(v) : v \in {x \in PairVectors(0) : LegalVec(x) /\ Determined(x)}}
     [] Family = "scope2" -> ScopeCfgs({"s1", "s2"})
     [] Family = "scope3" -> ScopeCfgs({"s1", "s2", "s3"})
+    [] Family = "scopeg" -> ScopeCfgsG({"s1", "s2"})
     [] Family = "todo"   -> TodoCfgs(0)
     [] Family = "lits"   -> LitCfgs(0)
     [] Family = "forms"  -> FormCfgs(0)
@@ -377,6 +386,7 @@ NoFl == [ignoreP |-> FALSE, ignoreS |-> FALSE]
 FileSets ==
   CASE Family \in {"tags", "tagsq"} -> {f \in TagFileSets(0) : OutputAccepted(MergeAll(f), NoFl)}
     [] Family \in {"api", "apiq"} -> {<<c>> : c \in Configs} \cup ApiFileSets(0)
+    [] Family = "scope2m" -> {<<c, ReopenAll(c)>> : c \in ScopeCfgs({"s1", "s2"})}
     [] OTHER -> {<<c>> : c \in Configs}
 IsImports == Family \in {"imports", "importsq"}
 
@@ -391,6 +401,8 @@ Script == IF Family = "ext" THEN ExtCases[aux.idx].ops
 Alphabet(c) ==
   CASE Family = "scope2" -> ScopeOps({"s1", "s2"})
     [] Family = "scope3" -> ScopeOps({"s1", "s2", "s3"})
+    [] Family = "scope2m" -> ScopeOps({"s1", "s2"})
+    [] Family = "scopeg" -> ScopeOpsG
     [] Family = "todo"   -> TodoOps
     [] OTHER -> {}
 
